@@ -247,6 +247,9 @@ func (l *vC07Lab) health(p *vC07Pipe) (bad []string, desc []string) {
 				continue
 			}
 			d.Servers.RLock()
+			if !strings.EqualFold(d.Servers.Zone, z) {
+				bad = append(bad, fmt.Sprintf("the delegation entry for %s carries the zone label %q", z, d.Servers.Zone))
+			}
 			for _, h := range d.Servers.Hosts {
 				if !strings.EqualFold(h, genuineHosts[z]) {
 					bad = append(bad, fmt.Sprintf("delegation cache names %s as a server of %s", h, z))
@@ -820,6 +823,18 @@ func TestVerifC07Lab(t *testing.T) {
 		localN = 10
 	}
 	vC07LabLocal(l, r, localN, scratch, emit)
+
+	// ------------------------------------------------- referrals inside error replies; the NS-address lookup window
+	errN := n / 4
+	if errN < 14 {
+		errN = 14
+	}
+	vC07LabErrReferrals(l, r, errN, scratch, emit)
+	winN := n / 6
+	if winN < 8 {
+		winN = 8
+	}
+	vC07LabWindow(l, r, winN, scratch, emit)
 
 	// ------------------------------------------------------- cached descent, live
 	for rep := 0; rep < 2; rep++ {
